@@ -92,9 +92,12 @@ static void run_string(const std::string& s, Rec& r, int from_call) {
 }
 
 // ------------------------------------------------------------------ judging (parent)
-static bool close_value(double got, long double want, long double mag, bool special) {
+// round-off allowance in ulps: 4, plus one per integer digit beyond the 15 a double holds exactly (the decoder accumulates
+// long numerals digit by digit; the documentation gives no accuracy for them)
+static long double ulps_for(int idigits) { return 4 + std::max(0, idigits - 15); }
+static bool close_value(double got, long double want, long double mag, bool special, int idigits = 0) {
   if (special || std::isnan((double)want) || std::isinf((double)want)) { if (std::isnan((double)want)) return std::isnan(got); return got == (double)want; }
-  long double tol = 4 * (long double)EPS * std::max(mag, fabsl(want)) + 1e-300L;
+  long double tol = ulps_for(idigits) * (long double)EPS * std::max(mag, fabsl(want)) + 1e-300L;
   return fabsl((long double)got - want) <= tol;
 }
 static const dmsg::Result& seven() { static dmsg::Result g = dmsg::recognise("7"); return g; }
@@ -120,20 +123,20 @@ static void judge(Ctx& ctx, const std::string& s, const Rec& r) {
     if (r.oc[C_DECODE] < 2) {
       if (want != (r.oc[C_DECODE] == 0)) ctx.fail(key, want ? "documented-legal string rejected by Decode" : "malformed string (" + std::string(g.why) + ") accepted by Decode, gives " + fx(r.v[C_DECODE]) + " flag " + fmti(r.ind), F(want ? "valid-rejected" : "invalid-accepted", C_DECODE, g.why));
       else if (want) {
-        if (!close_value(r.v[C_DECODE], g.value, g.mag, g.special)) ctx.fail(key + "/value", "Decode = " + fx(r.v[C_DECODE]) + ", documented meaning " + mc::fmtl(g.value), F("value", C_DECODE));
+        if (!close_value(r.v[C_DECODE], g.value, g.mag, g.special, g.maxidigits)) ctx.fail(key + "/value", "Decode = " + fx(r.v[C_DECODE]) + ", documented meaning " + mc::fmtl(g.value), F("value", C_DECODE));
         if (r.ind != g.flag) ctx.fail(key + "/flag", "Decode flag " + fmti(r.ind) + ", documented " + fmti(g.flag), F("flag", C_DECODE));
       }
     }
     bool wantA = want && g.flag == dmsg::NONE, wantZ = want && g.flag != dmsg::LATITUDE;
     if (r.oc[C_ANGLE] < 2) {
       if (wantA != (r.oc[C_ANGLE] == 0)) ctx.fail(key + "/angle", std::string("DecodeAngle ") + (r.oc[C_ANGLE] == 0 ? "accepted" : "rejected") + " a string that is " + (wantA ? "a legal arc angle" : "not a legal arc angle"), F(wantA ? "valid-rejected" : "invalid-accepted", C_ANGLE, g.why));
-      else if (wantA && !close_value(r.v[C_ANGLE], g.value, g.mag, g.special)) ctx.fail(key + "/angle", "DecodeAngle = " + fx(r.v[C_ANGLE]), F("value", C_ANGLE));
+      else if (wantA && !close_value(r.v[C_ANGLE], g.value, g.mag, g.special, g.maxidigits)) ctx.fail(key + "/angle", "DecodeAngle = " + fx(r.v[C_ANGLE]), F("value", C_ANGLE));
     }
     if (r.oc[C_AZI] < 2 && !g.special) {                      // azimuth of nan/inf: "reduced to [-180,180]" leaves it undocumented
       if (wantZ != (r.oc[C_AZI] == 0)) ctx.fail(key + "/azi", std::string("DecodeAzimuth ") + (r.oc[C_AZI] == 0 ? "accepted" : "rejected") + " a string that is " + (wantZ ? "a legal azimuth" : "not a legal azimuth"), F(wantZ ? "valid-rejected" : "invalid-accepted", C_AZI, g.why));
       else if (wantZ) {
         double z = r.v[C_AZI];
-        { long double d = remainderl((long double)z - g.value, 360.0L); if (!(fabsl(d) <= 4 * (long double)EPS * std::max(g.mag, 360.0L)) || !(std::fabs(z) <= 180)) ctx.fail(key + "/azi", "DecodeAzimuth = " + fx(z) + " want " + mc::fmtl(g.value) + " reduced", F("value", C_AZI)); }
+        { long double d = remainderl((long double)z - g.value, 360.0L); if (!(fabsl(d) <= ulps_for(g.maxidigits) * (long double)EPS * std::max(g.mag, 360.0L)) || !(std::fabs(z) <= 180)) ctx.fail(key + "/azi", "DecodeAzimuth = " + fx(z) + " want " + mc::fmtl(g.value) + " reduced", F("value", C_AZI)); }
       }
     }
     // DecodeLatLon with partner "7" (no designator)
@@ -149,7 +152,7 @@ static void judge(Ctx& ctx, const std::string& s, const Rec& r) {
       }
       if (silent) { ctx.count("doc_silent"); continue; }
       if (w != (r.oc[C_LL1 + k] == 0)) ctx.fail(key + "/ll" + fmti(k), std::string(CALLNAME[C_LL1 + k]) + (r.oc[C_LL1 + k] == 0 ? " accepted" : " rejected") + " against the documented rules", F(w ? "valid-rejected" : "invalid-accepted", C_LL1 + k, g.why));
-      else if (w && (!close_value(r.lat[k], lat, std::max(g.mag, 7.0L), g.special && std::isinf((double)lat)) || !close_value(r.lon[k], lon, std::max(g.mag, 7.0L), g.special)))
+      else if (w && (!close_value(r.lat[k], lat, std::max(g.mag, 7.0L), g.special && std::isinf((double)lat), g.maxidigits) || !close_value(r.lon[k], lon, std::max(g.mag, 7.0L), g.special, g.maxidigits)))
         ctx.fail(key + "/ll" + fmti(k) + "/value", std::string(CALLNAME[C_LL1 + k]) + " = (" + fx(r.lat[k]) + "," + fx(r.lon[k]) + ") want (" + mc::fmtl(lat) + "," + mc::fmtl(lon) + ")", F("value", C_LL1 + k));
     }
   }
@@ -275,6 +278,7 @@ int main(int argc, char** argv) {
   { std::string st = dmsg::selftest(); if (!st.empty()) { fprintf(stderr, "C10_bytes: reference recogniser self-test failed: %s\n", st.c_str()); return 2; } }
   Ctx ctx(argc, argv);
   const bool T = ctx.thorough();
+  ctx.note("value tolerance: 4 ulp of the sum of the pieces' magnitudes, plus 1 ulp per integer digit beyond 15 in a component (the accuracy of over-long numerals is not documented)");
   Exec ex;
   uint64_t nstr = 0;
   auto unit = [&](const std::vector<std::string>& strs) {
@@ -325,10 +329,11 @@ int main(int argc, char** argv) {
     std::vector<std::string> ws = tok; for (auto& a : tok) for (auto& b : tok) ws.push_back(a + b);
     std::vector<int> ks = {3, 4, 5, 8, 40}; if (T) { ks.push_back(6); ks.push_back(16); ks.push_back(200); }
     ctx.bound("pump", "all strings p w^k q with p, q in " + std::string(T ? "{empty} + 16 tokens" : "{empty, -, N, 1, .5, d, ', :}") + ", w a token sequence of length 1 or 2 (272), k in " + std::string(T ? "{3,4,5,6,8,16,40,200}" : "{3,4,5,8,40}") + " x 13 parser entry points");
-    for (auto& w : ws) {
+    for (auto& w : ws) for (int k : ks) {             // unit = (w, k): the few w that hit a defect are spread over the shards
       if (!ctx.take()) continue;
       std::vector<std::string> strs;
-      for (int k : ks) { std::string mid; for (int i = 0; i < k; ++i) mid += w; for (auto& p : pq) for (auto& q : pq) strs.push_back(p + mid + q); }
+      std::string mid; for (int i = 0; i < k; ++i) mid += w;
+      for (auto& p : pq) for (auto& q : pq) strs.push_back(p + mid + q);
       unit(strs);
     }
   }
